@@ -114,9 +114,10 @@ E1Failed(u, blk, h, pre, post, out) ==
 ----------------------------------------------------------------------------
 (* E2.  A "proc record" is what was observed of one keyper processing one block:
      [k, h, prev, trigs, dec, cuts]
-   prev = the block it processed before (0: none), trigs = the emitted triggers as a sequence of
-   [blk, ids], dec = its decrypted slots before the step, cuts = the positions its MultiEventSyncer
-   committed so far (after the step). *)
+   prev = the block it processed before (the root: none), trigs = the emitted triggers as a sequence
+   of [blk, ids], dec = its decrypted slots when the triggers were computed, i.e. after the sync part
+   of the step (a rollback deletes rows and with them their flags; the step itself sets no flag),
+   cuts = the positions its MultiEventSyncer committed so far (after the step). *)
 ProcRec(k, h, prev, out, dec, cuts) ==
     [k |-> k, h |-> h, prev |-> prev, trigs |-> [q \in DOMAIN out |-> [blk |-> out[q].blk, ids |-> out[q].ids]], dec |-> dec, cuts |-> cuts]
 RecIds(a) == UNION {SeqSet(a.trigs[q].ids) : q \in DOMAIN a.trigs}
